@@ -218,6 +218,15 @@ BASE_ASSUME = [
 ]
 
 
+def laws(run, maxact):
+    """C04's laws on the reference semantics: two CruxCommand instances side by side (MC_Laws.tla)"""
+    path, pairs = family_file(run, "laws1")
+    cfg = "SPECIFICATION LSpec\nINVARIANT LawHolds\nCHECK_DEADLOCK FALSE\n"
+    lib.mc(run, "MC_Laws", cfg, {"PAIRS": path, "MAXACT": str(maxact)},
+           need_actions=("LTake", "LResolve", "LDrop", "LAbort"), label=f"MC_Laws[{len(pairs)} pairs,maxact={maxact}]")
+    run.extra["laws"] = sorted({p["law"] for p in pairs})
+
+
 def c04(run):
     run.assumptions = BASE_ASSUME + ["at most one then_stream per chain; on a stream root only pure maps come before it"]
     q = run.quick
@@ -225,6 +234,8 @@ def c04(run):
     # then_stream: RequestBuilder's (sequential) and StreamBuilder's (flatten_unordered, modelled with its
     # ready-to-run queue and wrapped wakers)
     mc_and_replay(run, "flat1", 5 if q else 6, ALL_INV, ["direct", "stream"], cap=2500 if q else 40000)
+    # the laws, on the reference semantics itself (conformance of the code to it is what the rest establishes)
+    laws(run, 4 if q else 5)
     random_round(run, "cmd", run.seed, 800 if q else 8000, ["direct", "stream"], "cmd", 3 if q else 4, 16,
                  selftest=True)
     random_round(run, "mixed", run.seed + 1, 400 if q else 4000, ["direct"], "mixed", 2 if q else 3, 16)
